@@ -73,6 +73,8 @@ func runNBRandom(w *rt.World, res *hx.Result, kind int) *hx.Violation {
 	churnOn := hx.G(3) != 0
 	churnRounds := 1 + hx.G(3)
 	churnNoise := hx.G(2) == 0 // refused two-record registrations between the steps
+	defendOn := hx.G(3) == 0
+	defendN := 2 + hx.G(10)
 	churnTCP := kind == 2 && hx.G(2) == 0
 	stopMode := hx.F(14) // 0..1: after the clients; 2..7: at a chosen time while they run; 8..9: when client 0 has sent its k-th request
 	// 10: when some SUT task is blocked on a channel; 11: when >= 3 packet handlers are alive; 12: when a SUT task waits for a lock
@@ -272,6 +274,41 @@ func runNBRandom(w *rt.World, res *hx.Result, kind int) *hx.Violation {
 		})
 		rt.Probe(PJunk)
 	}
+	// name defenders: NameChallenger.DefendName answers queries from the shared table, next to the servers' own
+	// handlers and concurrently with the churner's registrations and releases
+	var defTasks []*rt.Task
+	var defBads [2]string
+	if kind == 2 && defendOn {
+		for d := 0; d < 2; d++ {
+			d := d
+			defTasks = append(defTasks, rt.GoHarness(fmt.Sprintf("defender%d", d), "10.0.1.230", func() {
+				ch := nbtns.NewNameChallenger(sys.table, nbtns.NewPacketHandler(sys.table))
+				for i := 0; i < defendN; i++ {
+					idx := (i*5 + d*3) % nNames
+					req := &nbtns.NBTNSPacket{Header: nbtns.NBTNSHeader{TransactionID: uint16(0x6400 + i), Questions: 2}}
+					for _, n := range []string{nameOf(idx), churnName} {
+						req.Questions = append(req.Questions, nbtns.NBTNSQuestion{Name: &nbtns.NetBIOSName{Name: n}, Type: 0x20, Class: 1})
+					}
+					resp := &nbtns.NBTNSPacket{}
+					ch.DefendName(req, resp)
+					mine := 0
+					for _, a := range resp.Answers {
+						if a.Name != nil && a.Name.Name == nameOf(idx) {
+							mine++
+							if !net.IP(a.RData).Equal(ipOf(idx)) {
+								defBads[d] = fmt.Sprintf("DefendName answered for %s with the address %v, the name is registered to %v", nameOf(idx), net.IP(a.RData), ipOf(idx))
+							}
+						}
+					}
+					if want := map[bool]int{true: 1, false: 0}[registered[idx]]; mine != want && defBads[d] == "" {
+						defBads[d] = fmt.Sprintf("DefendName returned %d records for %s (registered: %v)", mine, nameOf(idx), registered[idx])
+					}
+					rt.SleepUntil(rt.Now() + int64(1+i%3)*1e6)
+				}
+			}))
+		}
+		rt.Probe(PDefenders)
+	}
 	churnReliable := true
 	if churnOn {
 		tasks = append(tasks, rt.GoHarness("churner", "10.0.1.200", func() {
@@ -325,6 +362,14 @@ func runNBRandom(w *rt.World, res *hx.Result, kind int) *hx.Violation {
 	}
 	if churnTask != nil {
 		rt.Join(churnTask, -1)
+	}
+	for _, t := range defTasks {
+		rt.Join(t, -1)
+	}
+	for _, b := range defBads {
+		if b != "" {
+			return &hx.Violation{Class: "wrong_answer", Key: sysName + "/defend-name", Msg: b}
+		}
 	}
 
 	// ---- the churn itself: every release / re-registration of the cycle is acknowledged as a success, and whole
